@@ -18,7 +18,7 @@ RULE = ("writer subprocess (harness problem + SqliteDataStore in default thread-
         "3-worker batch, NSGA-II N=4 G=3, EpsMOEA and OMOPSO N=4 G=2; small and 8 KB payloads) killed without clean-up at a crash point counted from "
         "the moment the store constructor returned: (A) os._exit inside the k-th objective call, (B) os._exit "
         "before/after the j-th SQL statement or commit (sqlite3.connect factory installed in the writer), (C) SIGKILL "
-        "at the N-th pwrite64 on the database/journal via strace fault injection, (D) SIGKILL after a drawn delay; a "
+        "at the N-th pwrite64 on the database/journal via strace fault injection, (D) SIGKILL after a drawn delay, (E) the j-th statement, if it is a synchronisation's upsert, fails once with 'database is locked' (sqlite's answer after its busy timeout) and the writer is killed when that synchronisation call has returned; a "
         "fresh reader process opens the file through ProblemViewDataStore. Oracle: reader succeeds, metadata intact, "
         "every row equals one version the writer attempted for that id and is not older than the last acknowledged "
         "one, every acknowledged id is present, evaluated rows satisfy costs == f(vector). A/B/C are enumerated "
@@ -283,6 +283,11 @@ def check_point(case):
             j = 1 + inj["j"] % dry["sql"]
             db, log, rc = run_writer(d, sc, payload, {"kind": "B", "j": j, "phase": inj["phase"]})
             where = "scenario %s/%s, _exit %s SQL event %d of %d" % (sc, payload, inj["phase"], j, dry["sql"])
+        elif kind == "E":
+            j = 1 + inj["j"] % dry["sql"]
+            db, log, rc = run_writer(d, sc, payload, {"kind": "E", "j": j})
+            where = "scenario %s/%s, 'database is locked' at SQL event %d of %d, killed when that synchronisation " \
+                    "returned" % (sc, payload, j, dry["sql"])
         elif kind == "C":
             pts = strace_points(sc, payload)
             if pts is None:
@@ -307,11 +312,13 @@ def check_point(case):
 
 @st.composite
 def points(draw):
-    kind = draw(st.sampled_from(["A", "B", "B", "C", "C", "D"]))
+    kind = draw(st.sampled_from(["A", "B", "B", "C", "C", "D", "E"]))
     if kind == "A":
         inj = {"kind": "A", "k": draw(st.integers(0, 200))}
     elif kind == "B":
         inj = {"kind": "B", "j": draw(st.integers(0, 2000)), "phase": draw(st.sampled_from(["before", "after"]))}
+    elif kind == "E":
+        inj = {"kind": "E", "j": draw(st.integers(0, 2000))}
     elif kind == "C":
         inj = {"kind": "C", "n": draw(st.integers(0, 5000))}
     else:
@@ -332,6 +339,7 @@ def all_points(tier):
             for j in range(dry["sql"]):
                 for ph in ("before", "after"):
                     yield {"scenario": sc, "payload": payload, "inject": {"kind": "B", "j": j, "phase": ph}}
+                yield {"scenario": sc, "payload": payload, "inject": {"kind": "E", "j": j}}
             pts = strace_points(sc, payload)
             if pts is not None:
                 for n in range(pts[1] - pts[0] + 1):
